@@ -15,7 +15,7 @@ SPEC = {
                 3: "interface-directive-before-implements", 4: "block-description-lossy",
                 5: "single-line-description-backslash", 6: "directive-argument-description-dropped",
                 7: "specified-by-url-backslash"},
-    "n_quick": 240, "n_thorough": 960,
+    "n_quick": 270, "n_thorough": 960,
     "level": "proof",
     "what_violation": "exported SDL does not read back as a description of the registry",
     "rule": ("registries injected from generated descriptions (all six kinds, descriptions, deprecations with reasons, "
